@@ -33,3 +33,130 @@ Proof.
     as (x' & y' & E & Lx' & Ly' & _).
   exists x', y'. auto.
 Qed.
+
+(* ================================================================== round 4: the premise narrowed.
+   With b01's PMk invariant (Proofs.LapjvAugPred) the ONLY way the Dijkstra loop of a free row fails to
+   return is a rebuild of scan that comes out empty ([Starved]): the out-of-fuel exit is excluded by
+   counting `ready`, the failed cost lookup by "every assigned pair (y[j], j) is a listed pair".
+   Under has_PM an empty rebuild cannot happen in exact arithmetic (Hall block of ready's rows), but
+   proving it needs the adequacy of inf = sum(c) + 1 as the initial distance — open in C01 as well. *)
+From Centro Require Import Proofs.LapjvAugFuel Proofs.LapjvAugPred.
+
+Section Starve.
+Variables (r n : nat) (rows : list (list (nat * ext))) (x y : list nat) (v : list ext) (inf : ext).
+Hypothesis Rfin : forall i j c, In (j, c) (row rows i) -> (j < n)%nat.
+Hypothesis Rnodup : forall i, NoDup (map fst (row rows i)).
+(* every assigned pair is a listed pair (kernel_pre_augment checks it on every recorded call) *)
+Hypothesis Hcost : forall j, (j < n)%nat -> getn y j n <> n -> cost_at (rowget rows (getn y j n)) j <> None.
+
+(* the deterministic run from loop head s reaches a loop head whose rebuild of scan is empty *)
+Inductive Starved : aug_state -> Prop :=
+| starved_now : forall s s1, refill r n y inf s = (s1, None) -> g_scan s1 = [] -> Starved s
+| starved_later : forall s s1 jh srest c1 s3,
+    refill r n y inf s = (s1, None) -> g_scan s1 = jh :: srest ->
+    cost_at (rowget rows (getn y jh n)) jh = Some c1 ->
+    aug_relax r n (getn y jh n) y v (esub (esub c1 (gete v jh)) (g_umin s1)) (rowget rows (getn y jh n))
+      (mkAug (g_d s1) (g_pred s1) (g_done s1) (g_ontodo s1) (g_todo s1) srest (g_ready s1 ++ [jh]) (g_umin s1))
+    = (s3, None) ->
+    Starved s3 -> Starved s.
+
+Theorem aug_loop_none_starved : forall fuel s, PMk r n y s -> (n < fuel + length (g_ready s))%nat ->
+  aug_loop fuel r n inf rows y v s = None -> Starved s.
+Proof.
+  induction fuel as [|f IH]; intros s P Hf E.
+  - exfalso. destruct P as [M _]. destruct (Bounds_lengths n s (Marks_Bounds r n s M)) as [_ B]. lia.
+  - cbn [aug_loop] in E.
+    pose proof P as [M [Lp [PO [CR Asg]]]].
+    pose proof (refill_spec r n rows y inf Rfin s M) as RS. unfold refill in RS.
+    assert (ERF0 : refill r n y inf s =
+              match g_scan s with
+              | [] => let '(umin, scan) := aug_min r n (g_d s) (g_done s) (g_todo s) inf [] in
+                      let '(found, done') := aug_first_free r n y scan (g_done s) in
+                      (mkAug (g_d s) (g_pred s) done' (g_ontodo s) (g_todo s) scan (g_ready s) umin, found)
+              | _ => (s, None)
+              end) by reflexivity.
+    destruct (match g_scan s with
+              | [] => let '(umin, scan) := aug_min r n (g_d s) (g_done s) (g_todo s) inf [] in
+                      let '(found, done') := aug_first_free r n y scan (g_done s) in
+                      (mkAug (g_d s) (g_pred s) done' (g_ontodo s) (g_todo s) scan (g_ready s) umin, found)
+              | _ => (s, None)
+              end) as [s1 found] eqn:ERF.
+    destruct RS as [Ep [Et [Er [_ [Sub [RN RF]]]]]].
+    destruct found as [j|]; [discriminate|].
+    destruct (RN eq_refl) as [M1 As1].
+    assert (P1 : PMk r n y s1).
+    { split; auto. rewrite Ep, Et, Er. split; auto. split; [|split; auto].
+      - intros k Hk. apply in_app_iff in Hk as [Hk|Hk]; [apply PO; apply in_app_iff; left; auto|].
+        destruct (Sub k Hk) as [H|H]; apply PO; apply in_app_iff; [right|left]; auto.
+      - intros k Hk. apply in_app_iff in Hk as [Hk|Hk]; [apply Asg; apply in_app_iff; left; auto|].
+        destruct (As1 k Hk) as [H|H]; auto. apply Asg; apply in_app_iff; right; auto. }
+    destruct (g_scan s1) as [|jh srest] eqn:ES1; [eapply starved_now; eauto|].
+    destruct P1 as [_ [Lp1 [PO1 [CR1 Asg1]]]].
+    assert (Hjh_n : (jh < n)%nat).
+    { destruct M1 as [_ [_ [_ [_ [_ H]]]]]. apply H. rewrite ES1. apply in_app_iff. right. left. reflexivity. }
+    assert (Hjh_a : getn y jh n <> n) by (apply Asg1; rewrite ES1; apply in_app_iff; right; left; reflexivity).
+    destruct (cost_at (rowget rows (getn y jh n)) jh) as [c1|] eqn:EC; [|exfalso; exact (Hcost jh Hjh_n Hjh_a EC)].
+    set (s2 := mkAug (g_d s1) (g_pred s1) (g_done s1) (g_ontodo s1) (g_todo s1) srest (g_ready s1 ++ [jh]) (g_umin s1)) in *.
+    assert (P2 : PMk r n y s2).
+    { unfold s2. split; [apply Marks_pop; auto|]. cbn [g_pred g_todo g_scan g_ready].
+      split; auto. split; [|split].
+      - intros k Hk. apply (PredOK_incl r n y _ (g_ready s1)); [intros a Ha; apply in_app_iff; left; auto|].
+        apply PO1. rewrite ES1. apply in_app_iff in Hk as [Hk|Hk]; apply in_app_iff; [left|right; right]; auto.
+      - rewrite rev_app_distr. cbn [rev app chainR]. split; auto.
+        apply (PredOK_incl r n y _ (g_ready s1)); [intros a Ha; apply in_rev in Ha; exact Ha|].
+        apply PO1. rewrite ES1. apply in_app_iff. right. left. auto.
+      - intros k Hk. apply Asg1. rewrite ES1. rewrite <- app_assoc in Hk. exact Hk. }
+    assert (Hjh : In jh (g_ready s2)) by (unfold s2; cbn [g_ready]; apply in_app_iff; right; left; auto).
+    pose proof (aug_relax_pm r n y v jh (esub (esub c1 (gete v jh)) (g_umin s1)) (rowget rows (getn y jh n)) s2
+                  (fun j c H => Rfin _ j c H) P2 Hjh) as [P3 [R3 _]].
+    destruct (aug_relax r n (getn y jh n) y v (esub (esub c1 (gete v jh)) (g_umin s1)) (rowget rows (getn y jh n)) s2)
+      as [s3 f3] eqn:ER3.
+    cbn [fst snd] in P3, R3. destruct f3 as [j|]; [discriminate|].
+    eapply starved_later; eauto.
+    apply (IH s3 P3); [|exact E].
+    rewrite R3. unfold s2. cbn [g_ready]. rewrite app_length, Er. cbn [length]. lia.
+Qed.
+
+(* one free row, the premise narrowed to "no rebuild of scan comes out empty": the search returns, the
+   marks bound the three scratch lists, and the flip (fuel S n as in the code's model) never fails and
+   re-establishes the partial-inverse structure of x / y *)
+Theorem augment_row_safe : forall (ms : main_state),
+  length x = n -> length y = n -> (r < n)%nat -> free n y r -> PIh n x y None ->
+  length (m_done ms) = n -> length (m_ontodo ms) = n -> length (m_pred ms) = n ->
+  let row_r := rowget rows r in
+  let '(d, ontodo, pred) := aug_init_row r v row_r (repeat inf n) (m_ontodo ms) (m_pred ms) in
+  let g0 := mkAug d pred (m_done ms) ontodo (map fst row_r) [] [] inf in
+  ~ Starved g0 ->
+  exists s' j1, aug_loop (S (S n)) r n inf rows y v g0 = Some (s', j1) /\
+    Bounds n s' /\ (length (g_todo s') <= n)%nat /\ (length (g_ready s') + length (g_scan s') <= n)%nat /\
+    (j1 < n)%nat /\
+    exists x' y', aug_flip (S n) r (g_pred s') j1 x y n = Some (x', y') /\ length x' = n /\ length y' = n /\
+    PIh n x' y' None.
+Proof.
+  intros ms Lx Ly Hr Fr PI Ld Lo Lp. cbv zeta.
+  pose proof (aug_marks_inv r n rows y v inf Rfin Rnodup ms) as MI.
+  pose proof (aug_flip_full r n rows x y v inf Rfin Rnodup ms) as FF.
+  pose proof (aug_init_row_marks r n rows v Rfin (rowget rows r) (repeat inf n) (m_ontodo ms) (m_pred ms)
+                (fun j c H => Rfin r j c H) Lo) as AI.
+  pose proof (aug_init_row_pred r n rows v Rfin (rowget rows r) (repeat inf n) (m_ontodo ms) (m_pred ms)
+                (fun j c H => Rfin r j c H) Lp) as AP.
+  cbv zeta in MI, FF.
+  destruct (aug_init_row r v (rowget rows r) (repeat inf n) (m_ontodo ms) (m_pred ms)) as [[d o] p].
+  destruct AI as [Lo' [In' _]]. destruct AP as [Lp' [Pr _]]. intros NS.
+  assert (P0 : PMk r n y (mkAug d p (m_done ms) o (map fst (rowget rows r)) [] [] inf)).
+  { split; [|cbn [g_pred g_todo g_scan g_ready app rev chainR]; split; [exact Lp'|split; [|split; [exact Logic.I|intros j []]]]].
+    - unfold Marks. cbn [g_done g_ontodo g_todo g_scan g_ready app].
+      refine (conj Ld (conj Lo' (conj (Rnodup r) (conj _ (conj (NoDup_nil _) _))))).
+      + intros j Hj. apply in_map_iff in Hj as [[j' c'] [<- Hin]]. cbn [fst]. split; [eapply Rfin; eauto|eapply In'; eauto].
+      + intros j [].
+    - intros j Hj. rewrite app_nil_r in Hj. apply in_map_iff in Hj as [[j' c'] [<- Hin]]. left. cbn [fst]. eapply Pr; eauto. }
+  destruct (aug_loop (S (S n)) r n inf rows y v (mkAug d p (m_done ms) o (map fst (rowget rows r)) [] [] inf))
+    as [[s' j1]|] eqn:E.
+  - exists s', j1. split; [reflexivity|].
+    destruct (MI s' j1 Ld Lo eq_refl) as (B & T & R & J & _).
+    split; [exact B|]. split; [exact T|]. split; [exact R|]. split; [exact J|].
+    destruct (FF s' j1 Lx Ly Hr Fr PI Ld Lo Lp eq_refl) as (x' & y' & EF & Lx' & Ly' & PI' & _).
+    exists x', y'. auto.
+  - exfalso. apply NS. apply (aug_loop_none_starved (S (S n)) _ P0); [cbn [g_ready length]; lia|exact E].
+Qed.
+End Starve.
